@@ -371,6 +371,16 @@ func (p *Path) doAppend(a0, a1 Value) Value {
 			return BytesOf{s: mkConcat(bo.s, x.s)}
 		case *Term:
 			return BytesOf{s: mkConcat(bo.s, x)}
+		case Slice:
+			parts := []*Term{bo.s}
+			for _, e := range x.data {
+				t, ok := e.(*Term)
+				if !ok || t.Sort != SInt {
+					p.unsupported("append to []byte of a non-byte value")
+				}
+				parts = append(parts, mkFromCode(t))
+			}
+			return BytesOf{s: mkConcat(parts...)}
 		}
 		p.unsupported("append to []byte of %T", a1)
 	}
@@ -671,7 +681,8 @@ func (p *Path) eval(fr *frame, ins ssa.Value) Value {
 		c := p.concreteInt(p.get(fr, in.Cap), "make cap")
 		et := in.Type().Underlying().(*types.Slice).Elem()
 		if b, ok := et.Underlying().(*types.Basic); ok && b.Kind() == types.Uint8 {
-			p.unsupported("make([]byte)")
+			// a byte slice is modelled as an immutable string view: fine for make+append, stores are unsupported
+			return BytesOf{s: mkStr(strings.Repeat("\x00", int(n)))}
 		}
 		d := make([]Value, n, c)
 		full := d[:c]
@@ -1046,6 +1057,20 @@ func (p *Path) binop(op token.Token, x, y Value, xt types.Type) Value {
 					z.AndNot(a.I, b.I)
 				}
 				r = mkBig(z)
+			} else if b.IsConst() && b.I.IsInt64() && (op == token.SHR || op == token.SHL) && b.Int64() >= 0 && b.Int64() < 62 {
+				pow := mkBig(new(big.Int).Lsh(big.NewInt(1), uint(b.Int64())))
+				if op == token.SHR {
+					r = mkDiv(a, pow)
+				} else {
+					r = mkMul(a, pow)
+				}
+				p.rangeOblig = append(p.rangeOblig, mkLe(mkInt(0), a))
+			} else if op == token.AND && b.IsConst() && isLowMask(b.I) {
+				r = mkMod(a, mkBig(new(big.Int).Add(b.I, big.NewInt(1))))
+				p.rangeOblig = append(p.rangeOblig, mkLe(mkInt(0), a))
+			} else if op == token.AND && a.IsConst() && isLowMask(a.I) {
+				r = mkMod(b, mkBig(new(big.Int).Add(a.I, big.NewInt(1))))
+				p.rangeOblig = append(p.rangeOblig, mkLe(mkInt(0), b))
 			} else {
 				p.unsupported("symbolic bit operation %v", op)
 			}
@@ -1224,4 +1249,13 @@ func byteAtEq(a, c *Term) *Term {
 		return mkSuffixOf(ch, s)
 	}
 	return nil
+}
+
+// isLowMask: m = 2^k - 1
+func isLowMask(m *big.Int) bool {
+	if m.Sign() <= 0 {
+		return false
+	}
+	n := new(big.Int).Add(m, big.NewInt(1))
+	return new(big.Int).And(n, m).Sign() == 0
 }
